@@ -77,6 +77,14 @@ Definition a_precheck {St} (A : arch St) (s : astate St) (wi wo : list (list snu
              end;
   validate_buffers (map zlen wi) (map zlen wo) mask (a_val_channels A st) (a_val_min_in A st) (a_val_min_out A st).
 
+Lemma a_precheck_total {St} (A : arch St) s wi wo m :
+  a_precheck A s wi wo m = Ok tt \/ exists e, a_precheck A s wi wo m = Err e.
+Proof.
+  unfold a_precheck. destruct m as [mk|]; cbn [bind].
+  - destruct (a_mask_bad A (as_ctl s) (zlen mk)); cbn [bind]; [right; eauto|]. apply validate_total.
+  - apply validate_total.
+Qed.
+
 Theorem pib_err_iff {St} (A : arch St) (HA : sample_no_err A) s wi wo m e :
   pib A s wi wo m = Err e <-> a_precheck A s wi wo m = Err e.
 Proof.
